@@ -198,7 +198,7 @@ type Conn struct {
 	// Last projected state at the last "handled"/"open" event.
 	lastState *smtp.VerifState
 	events    []Event
-	ended     bool // the "end" hook fired: handleConn is returning
+	ended     bool          // the "end" hook fired: handleConn is returning
 	spawned   int           // BDAT delivery goroutines launched on this connection
 	lateHold  chan struct{} // non-nil: deliveries are held before their Data callback until it is closed
 }
